@@ -255,6 +255,8 @@ def unit2(notes):
         notes.append("MetadataSetting.read: `if key in (...)` not found: metadataIntKeys generated as empty")
         ints = []
     t["metadataIntKeys"] = ints
+    t["sectionDividerConditions"] = [("SectionDividerSetting", m, "; ".join(_conditions("psd_tools.psd.tagged_blocks", "SectionDividerSetting", m, notes)))
+                                     for m in ("read", "write")]
     AN = getattr(TB, "Annotation", None)
     t["annotationKinds"] = [bytes(x) for x in _validator_options(AN, "kind")] if AN else []
     t["annotationMarkers"] = [bytes(x) for x in _validator_options(AN, "marker")] if AN else []
@@ -336,7 +338,8 @@ def gen_payload(ctx):
     except Exception as e:  # noqa
         notes.append(f"unit2 extraction failed: {type(e).__name__}: {e}")
         t2 = {"sectionDividerKinds": [], "sheetColors": [], "colorSpaceLab": 4294967295, "metadataSignatures": [],
-              "metadataDescriptorKeys": [], "metadataIntKeys": [], "annotationKinds": [], "annotationMarkers": []}
+              "metadataDescriptorKeys": [], "metadataIntKeys": [], "annotationKinds": [], "annotationMarkers": [],
+              "sectionDividerConditions": [("SectionDividerSetting", "<extractor failed>", "<missing>")]}
     bl = lambda xs: "[" + ", ".join(_bytes(x) for x in xs) + "]"
     parts.append(
         f"/-- members of `constants.SectionDivider` -/\ndef sectionDividerKinds : List Nat := {t2['sectionDividerKinds']}\n"
@@ -346,7 +349,9 @@ def gen_payload(ctx):
         f"/-- the keys whose data is one `I` (`if key in (...)` of `MetadataSetting.read`) -/\ndef metadataIntKeys : List (List UInt8) := {bl(t2['metadataIntKeys'])}\n"
         f"/-- `MetadataSetting._KNOWN_KEYS`, sorted -/\ndef metadataDescriptorKeys : List (List UInt8) := {bl(t2['metadataDescriptorKeys'])}\n"
         f"/-- options of the validator of `Annotation.kind` -/\ndef annotationKinds : List (List UInt8) := {bl(t2['annotationKinds'])}\n"
-        f"/-- options of the validator of `Annotation.marker` -/\ndef annotationMarkers : List (List UInt8) := {bl(t2['annotationMarkers'])}\n")
+        f"/-- options of the validator of `Annotation.marker` -/\ndef annotationMarkers : List (List UInt8) := {bl(t2['annotationMarkers'])}\n"
+        "/-- the tests of the `if` statements of SectionDividerSetting.read / write -/\n"
+        f"def sectionDividerConditions : List (String × String × String) := {rows4(t2['sectionDividerConditions'])}\n")
     # ---- unit 3
     try:
         t3 = unit3(notes)
